@@ -24,37 +24,47 @@ def matrix_is_complex(A):
         return np.iscomplexobj(A)
 
 
+def _atol(A):
+    """ Absolute tolerance relative to the largest entry, which makes the matrix checks independent of scaling """
+    if matrix_is_sparse(A):
+        data = A.data if isinstance(A.data, np.ndarray) and A.data.dtype != object else A.tocoo().data
+    else:
+        data = np.asarray(A)
+    amax = np.abs(data).max() if data.size > 0 else 0.0
+    return 1e-10 * amax if np.isfinite(amax) else 0.0
+
+
 def matrix_is_diagonal(A):
     """ Checks if the matrix is diagonal"""
     if matrix_is_sparse(A):
         if isinstance(A, sps.dia_matrix):
             return len(A.offsets) == 1 and A.offsets[0] == 0
         else:
-            return np.allclose((A - sps.spdiags(A.diagonal(), 0, *A.shape)).data, 0.0)
+            return np.allclose((A - sps.spdiags(A.diagonal(), 0, *A.shape)).data, 0.0, atol=_atol(A))
     elif is_cvxopt_spmatrix(A):
         return max(abs(A.I - A.J)) == 0
     else:
-        return np.allclose(A, np.diag(np.diag(A)))
+        return np.allclose(A, np.diag(np.diag(A)), atol=_atol(A))
 
 
 def matrix_is_symmetric(A):
     """ Checks whether a matrix is numerically symmetric """
     if matrix_is_sparse(A):
-        return np.allclose((A-A.T).data, 0)
+        return np.allclose((A-A.T).data, 0, atol=_atol(A))
     elif is_cvxopt_spmatrix(A):
         return np.isclose(max(abs(A-A.T)), 0.0)
     else:
-        return np.allclose(A, A.T)
+        return np.allclose(A, A.T, atol=_atol(A))
 
 
 def matrix_is_hermitian(A):
     """ Checks whether a matrix is numerically Hermitian """
     if matrix_is_complex(A):
         if matrix_is_sparse(A):
-            return np.allclose((A-A.T.conj()).data, 0)
+            return np.allclose((A-A.T.conj()).data, 0, atol=_atol(A))
         elif is_cvxopt_spmatrix(A):
             return np.isclose(max(abs(A-A.ctrans())), 0.0)
         else:
-            return np.allclose(A, A.T.conj())
+            return np.allclose(A, A.T.conj(), atol=_atol(A))
     else:
         return matrix_is_symmetric(A)
